@@ -389,7 +389,7 @@ impl Report {
         self.tier == "thorough"
     }
     pub fn cap_s(&self) -> f64 {
-        let d = if self.thorough() { 1500.0 } else { 45.0 };
+        let d = if self.thorough() { 1500.0 } else { 50.0 };
         std::env::var("VERIF_CAP_S").ok().and_then(|s| s.parse().ok()).unwrap_or(d)
     }
     pub fn over_cap(&self) -> bool {
